@@ -149,6 +149,10 @@ func c02Random(rng *rand.Rand) (*c02Config, string, bool) {
 	for s := 0; s < nsel; s++ {
 		cfg.selectors = append(cfg.selectors, selPool[rng.IntN(len(selPool))])
 	}
+	reassign := rng.IntN(8) == 0
+	if reassign {
+		allArr = false
+	}
 	cfg.allArrays = allArr
 	nrules := 1 + rng.IntN(8)
 	active := map[string]bool{}
@@ -213,6 +217,10 @@ func c02Random(rng *rand.Rand) (*c02Config, string, bool) {
 			action = ""
 		}
 		r.Body = c02Body(fmt.Sprintf("%s%d", k[:2], i), k, allArr, action)
+		if k == "BEGINFILE" && reassign {
+			// assigning $ in BEGINFILE replaces the root the pattern rules then iterate
+			r.Body.Stmts = append(r.Body.Stmts, asg(V("$"), []Expr{Mem(V("$"), "a"), Arr(V("$"), N("1")), Idx(V("$"), N("0"))}[rng.IntN(3)]))
+		}
 		cfg.rules = append(cfg.rules, r)
 	}
 	key := fmt.Sprintf("R:%d rules/%s/sel%d", nrules, shape, nsel)
